@@ -305,6 +305,20 @@ def run_wm(desc):
             changed = set(fsnap.changed_paths(fsnap.diff(before, after)))
             inv_after, sc = manifest_inventory(root)
             eff = F or 'gz'
+            for lg in inv_before:
+                if lg not in inv_after:
+                    return violation(
+                        f'{what}: Manifest {lg!r} is gone; Manifests now: '
+                        f'{sorted(inv_after)}', sig='manifest-name-lost',
+                        classes=classes)
+            for lg in inv_after:
+                if not any((lg + ('.' + s_ if s_ else '')) in before
+                           for s_ in [''] + SUFFIXES) \
+                        and state['mode'] != 'none':
+                    return violation(
+                        f'{what}: a Manifest named {lg!r} appeared (no '
+                        f'variant of it existed before)',
+                        sig='manifest-name-invented', classes=classes)
             for lg, variants in inv_after.items():
                 if len(variants) != 1:
                     return violation(
